@@ -15,17 +15,17 @@ Inductive case :=
 
 Definition ktl_tag (kd : ktl_kind) (its : list entry) (out : option (list entry)) : N :=
   match kd, out with
-  | KToList _, Some [] => 1
-  | KToList _, Some [_] => match its with e :: _ => if has_discard e then 4 else 2 | [] => 2 end
-  | KToList _, Some _ => 3
-  | KToList _, None => 5
-  | KBackup _, None => 10
-  | KBackup _, Some [] => 14
+  | KToList _, Some [] => 401
+  | KToList _, Some [_] => match its with e :: _ => if has_discard e then 404 else 402 | [] => 402 end
+  | KToList _, Some _ => 403
+  | KToList _, None => 405
+  | KBackup _, None => 410
+  | KBackup _, Some [] => 414
   | KBackup _, Some l =>
       match last l (mkE [] 0 0 0 0 []) with
       | e => if (is_deleted e) && (e_umeta e =? 0) && (e_exp e =? 0) && (1 <? N.of_nat (length l))
-                && has_discard (nth (length l - 2) l e) then 11
-             else if is_deleted e then 12 else if e_exp e =? 0 then 13 else 15
+                && has_discard (nth (length l - 2) l e) then 411
+             else if is_deleted e then 412 else if e_exp e =? 0 then 413 else 415
       end
   end.
 
